@@ -37,7 +37,7 @@ type schemaPath struct {
 
 // schemaPaths lists every attribute path of the JSON schema with the JSON types the schema admits there.
 func schemaPaths() ([]schemaPath, error) {
-	b, err := os.ReadFile("/repo/schema/compose-spec.json")
+	b, err := os.ReadFile(core.RepoRoot+"/schema/compose-spec.json")
 	if err != nil {
 		return nil, err
 	}
@@ -682,7 +682,7 @@ func C01(c *core.Ctx) {
 		})
 	}
 	// every node of the repository's full example replaced by values of other kinds (siblings stay valid)
-	if fb, err := os.ReadFile("/repo/loader/full-example.yml"); err == nil {
+	if fb, err := os.ReadFile(core.RepoRoot+"/loader/full-example.yml"); err == nil {
 		var tree interface{}
 		if yaml.Unmarshal(fb, &tree) == nil {
 			type step struct {
@@ -761,7 +761,7 @@ func C01(c *core.Ctx) {
 			}
 		}
 	}
-	if b, err := os.ReadFile("/repo/loader/full-example.yml"); err == nil {
+	if b, err := os.ReadFile(core.RepoRoot+"/loader/full-example.yml"); err == nil {
 		corpus = append(corpus, string(b))
 	}
 	alphabet := []byte("{}[]:,-&*!|>'\"#%@`? \n\t$~0aA\\.")
